@@ -20,7 +20,7 @@ func translate(p *pkg, cfg fnCfg) (lean string, uses []string, reason string) {
 			lean, uses, reason = "", nil, u.msg
 		}
 	}()
-	g := &gen{p: p, cfg: cfg, fd: p.funcs[cfg.Name], sig: p.sigs[cfg.Name], uses: map[string]bool{}, tmp: "t"}
+	g := &gen{p: p, cfg: cfg, fd: p.funcs[cfg.Name], sig: p.sigs[cfg.Name], uses: map[string]bool{}, dropped: map[string]bool{}, tmp: "t"}
 	ast.Inspect(g.fd, func(n ast.Node) bool { // temporaries t1, t2, … must not collide with Go names
 		if id, ok := n.(*ast.Ident); ok && regexp.MustCompile(`^t_*[0-9]+$`).MatchString(id.Name) && len(id.Name) > len(g.tmp) {
 			g.tmp = "t" + strings.Repeat("_", len(id.Name))
@@ -109,8 +109,14 @@ func (g *gen) body(stmts []ast.Stmt, first ...string) {
 		g.emit(l)
 	}
 	g.block(stmts)
-	if len(g.out) == n || strings.HasPrefix(strings.TrimSpace(g.out[len(g.out)-1]), "let ") {
-		g.emit("pure ()") // a Lean do-block cannot be empty or end in a `let`
+	last := "" // the last line that is not a comment
+	for _, l := range g.out[n:] {
+		if t := strings.TrimSpace(l); !strings.HasPrefix(t, "--") {
+			last = t
+		}
+	}
+	if last == "" || strings.HasPrefix(last, "let ") {
+		g.emit("pure ()") // a Lean do-block cannot be empty (or comments only) or end in a `let`
 	}
 	g.ind--
 	g.pop()
@@ -180,17 +186,36 @@ func (g *gen) threadedCall(c *ast.CallExpr) bool {
 	return true
 }
 
+// dropArgs: the arguments of a dropped logging.* / runtime.* call.  Go evaluates them before the
+// call, so whatever in them can panic is still evaluated here, in order, for that effect only.  An
+// argument that mentions a variable of a dropped `x := runtime.…` assignment is dropped whole: it is
+// a method call on an opaque runtime value (fn.Name()), which does not panic.
+func (g *gen) dropArgs(call *ast.CallExpr) {
+	for _, a := range call.Args {
+		opaque := false
+		ast.Inspect(a, func(n ast.Node) bool {
+			if id, ok := n.(*ast.Ident); ok && g.dropped[id.Name] {
+				_, declared := g.lookup(id.Name)
+				opaque = opaque || !declared
+			}
+			return true
+		})
+		if opaque {
+			continue
+		}
+		g.takeLits()
+		if code, _, act := g.expr0(a, ""); act {
+			g.emit("let _ ← " + code)
+		}
+		g.takeLits()
+	}
+}
+
 func (g *gen) stmt(s ast.Stmt) {
 	switch s := s.(type) {
 	case *ast.ExprStmt:
 		if g.isDropped(s.X) {
-			// Dropping the call must not drop a panic: its arguments have to be panic-free.
-			for _, a := range s.X.(*ast.CallExpr).Args {
-				if lines := g.capture(0, func() { g.expr(a, "") }); len(lines) > 0 {
-					g.fail(a, "argument of a dropped logging/runtime call can panic")
-				}
-			}
-			g.takeLits()
+			g.dropArgs(s.X.(*ast.CallExpr))
 			g.emit("-- dropped: " + litComment(typeStr(s.X)))
 			return
 		}
@@ -708,12 +733,12 @@ func (g *gen) isDroppedRhs(s *ast.AssignStmt) bool {
 	if len(s.Rhs) != 1 || !g.isDropped(s.Rhs[0]) {
 		return false
 	}
-	for _, a := range s.Rhs[0].(*ast.CallExpr).Args {
-		if lines := g.capture(0, func() { g.expr(a, "") }); len(lines) > 0 {
-			g.fail(a, "argument of a dropped logging/runtime call can panic")
+	g.dropArgs(s.Rhs[0].(*ast.CallExpr))
+	for _, l := range s.Lhs { // the variables stay undeclared; dropArgs lets them appear in other dropped calls
+		if id, ok := l.(*ast.Ident); ok && id.Name != "_" {
+			g.dropped[id.Name] = true
 		}
 	}
-	g.takeLits()
 	g.emit("-- dropped: " + litComment(typeStr(s)))
 	return true
 }
